@@ -1,6 +1,8 @@
 package s1028
 
 import (
+	"go/ast"
+
 	"honnef.co/go/tools/analysis/code"
 	"honnef.co/go/tools/analysis/edit"
 	"honnef.co/go/tools/analysis/facts/generated"
@@ -29,13 +31,18 @@ var SCAnalyzer = lint.InitializeAnalyzer(&lint.Analyzer{
 var Analyzer = SCAnalyzer.Analyzer
 
 var (
-	checkErrorsNewSprintfQ = pattern.MustParse(`(CallExpr (Symbol "errors.New") [(CallExpr (Symbol "fmt.Sprintf") args)])`)
-	checkErrorsNewSprintfR = pattern.MustParse(`(CallExpr (SelectorExpr (Ident "fmt") (Ident "Errorf")) args)`)
+	checkErrorsNewSprintfQ = pattern.MustParse(`(CallExpr (Symbol "errors.New") [call@(CallExpr (Symbol "fmt.Sprintf") _)])`)
 )
 
 func run(pass *analysis.Pass) (any, error) {
 	for node, m := range code.Matches(pass, checkErrorsNewSprintfQ) {
-		edits := code.EditMatch(pass, node, m, checkErrorsNewSprintfR)
+		call := m.State["call"].(*ast.CallExpr)
+		// Keep the "..." of a variadic spread such as fmt.Sprintf(format, xs...)
+		edits := []analysis.TextEdit{edit.ReplaceWithNode(pass.Fset, node, &ast.CallExpr{
+			Fun:      &ast.SelectorExpr{X: ast.NewIdent("fmt"), Sel: ast.NewIdent("Errorf")},
+			Args:     call.Args,
+			Ellipsis: call.Ellipsis,
+		})}
 		// TODO(dh): the suggested fix may leave an unused import behind
 		report.Report(pass, node, "should use fmt.Errorf(...) instead of errors.New(fmt.Sprintf(...))",
 			report.FilterGenerated(),
